@@ -7,6 +7,7 @@ timestamp is strictly later than the bundle's latest in every row of its decisio
 """
 from absint import table, Sym, Agg, Const, consistent_order
 from mir import sem_calls
+from facts import op_place
 
 M = "p2panda_encryption::data_scheme::group_secret::"
 NEXT = "core::iter::traits::iterator::Iterator::next"
@@ -26,27 +27,36 @@ def rule_find_latest(ctx):
     leaves = [lf for lf in table(ctx.prog, b, lambda it: [Sym("secrets")], cfg, start=loop.bb) if consistent_order(lf)]
     ctx.evaluations += len(leaves)
     rows = {}
-    lt_local = [p.local for p in b.vars.get("latest_timestamp", []) if not p.proj]
-    id_local = [p.local for p in b.vars.get("latest_secret_id", []) if not p.proj]
+    # accumulators by role: the id accumulator is the local the function returns, the timestamp accumulator the
+    # user-declared integer local that is re-assigned inside the loop
+    id_local = []
+    for bb, k, pl, rv, st in b.assigns():
+        if pl.local == 0 and not pl.proj and rv["k"] == "use":
+            q = op_place(rv["op"])
+            if q is not None and not q.proj:
+                id_local.append(q.local)
+    users = {p.local for pls in b.vars.values() for p in pls if not p.proj}
+    lt_local = [l for l in sorted(users) if b.locals[l]["ty"] in ("u64", "u128", "u32") and len(b.defs_of(l)) > 1]
     if not (lt_local and id_local):
-        ctx.ob("anchor", "find_latest accumulators", False, "anchor-missing: latest_timestamp / latest_secret_id")
+        ctx.ob("anchor", "find_latest accumulators", False, "anchor-missing: returned accumulator %s / integer accumulator %s" % (id_local, lt_local))
         return
+    LT, LID = b.local_name(lt_local[0]) or "_%d" % lt_local[0], b.local_name(id_local[0]) or "_%d" % id_local[0]
     for lf in leaves:
         nx = [e for e in lf.events if e[0] == "call" and e[1] == NEXT]
         if not nx or lf.discr(nx[0][5].e) != 1:
             ctx.ob("C36.1", "fold returns the accumulated id", lf.kind == "return" and lf.ret is not None and
-                   lf.ret.expr() == "latest_secret_id", "returns %s" % (lf.ret.expr() if lf.ret is not None else lf.kind), site=b.loc())
+                   lf.ret.expr() == LID, "returns %s" % (lf.ret.expr() if lf.ret is not None else lf.kind), site=b.loc())
             continue
         elem = "(%s as Some).0" % nx[0][5].e
         ts = "%s(%s.1)" % (TS, elem)
-        rel_t = lf.relation("latest_timestamp", ts)
+        rel_t = lf.relation(LT, ts)
         new_t = lf.frame.store.get(lt_local[0])
         new_id = lf.frame.store.get(id_local[0])
         replaced = new_t is not None and new_t.expr() == ts
         id_rel = None
-        cur_some = lf.discr("latest_secret_id")
+        cur_some = lf.discr(LID)
         for (x, y), r in lf.rel.items():
-            if elem + ".0" in x + y and ("latest_secret_id" in x + y or "array(" in x + y):
+            if elem + ".0" in x + y and (LID in x + y or "array(" in x + y):
                 first_is_id = x.startswith(elem) or x.lstrip("&").startswith(elem)
                 id_rel = r if first_is_id else {"<": ">", ">": "<", "=": "="}.get(r, r)
         if rel_t == "<":
